@@ -186,6 +186,15 @@ class FnTr:
                     body = "let %s := %s in\n%s" % (n_, t, body)
                 return self.wrap(binds, body)
             raise Untranslatable("assignment form")
+        if isinstance(s, ast.If) and isinstance(s.test, ast.BoolOp) and len(s.test.values) >= 2:
+            # short-circuit semantics:  if A and B: X else: Y  ==  if A: (if B: X else: Y) else: Y   (dually for or)
+            a, b = s.test.values[0], s.test.values[1:]
+            b = b[0] if len(b) == 1 else ast.BoolOp(op=s.test.op, values=b)
+            if isinstance(s.test.op, ast.And):
+                inner = ast.If(test=b, body=s.body, orelse=s.orelse)
+                return self.stmts([ast.If(test=a, body=[inner], orelse=s.orelse)] + rest, k)
+            inner = ast.If(test=b, body=s.body, orelse=s.orelse)
+            return self.stmts([ast.If(test=a, body=s.body, orelse=[inner])] + rest, k)
         if isinstance(s, ast.If):
             kk = self.stmts(rest, k) if (rest or k is not None) else None
             saved = dict(self.types)
